@@ -112,6 +112,8 @@ static std::string run_case(Case &c, bool *short_rs = nullptr) {
   set_provider(c.sprov); set_now((time_t)c.now);
   jwt_builder_t *b = jwt_builder_new();
   const LKey &priv = lkey(*ka.k, ka.attr, true);
+  // mode bit 3 (value 8): the objects are RE-KEYED by setkey - they held another key with another algorithm before (key rotation on a long-lived object); not combined with keys from callbacks, where the earlier explicit algorithm rightly stays pinned
+  if ((c.mode & 8) && !(c.mode & 4)) { const KeySpec &ok = POOL.get("oct64"); const LKey &old = lkey(ok, "", true); jwt_builder_setkey(b, ka.alg == JWT_ALG_HS512 ? JWT_ALG_HS256 : JWT_ALG_HS512, old.item); }
   KeyCtx bkx{priv.item, ka.attr.empty() ? ka.alg : JWT_ALG_NONE, nullptr};
   if (c.mode & 4) { if (jwt_builder_setcb(b, key_cb, &bkx)) { jwt_builder_free(b); return "setcb-refused"; } }
   else
@@ -155,6 +157,7 @@ static std::string run_case(Case &c, bool *short_rs = nullptr) {
   set_provider(c.vprov);
   jwt_checker_t *ch = jwt_checker_new(); RdCtx rc; rc.header = mh; rc.claims = mc;
   const LKey &pub = lkey(*ka.k, ka.attr, false);
+  if ((c.mode & 8) && !(c.mode & 4)) { const KeySpec &ok = POOL.get("oct64"); const LKey &old = lkey(ok, "", true); jwt_checker_setkey(ch, ka.alg == JWT_ALG_HS512 ? JWT_ALG_HS256 : JWT_ALG_HS512, old.item); }
   KeyCtx ckx{pub.item, ka.attr.empty() ? ka.alg : JWT_ALG_NONE, &rc};
   if (!(c.mode & 4))
   if (jwt_checker_setkey(ch, ka.attr.empty() ? ka.alg : JWT_ALG_NONE, pub.item)) { jwt_checker_free(ch); return "checker-setkey-refused"; }
@@ -233,7 +236,7 @@ int main(int argc, char **argv) {
     if (v::shrink_exhausted()) return;
     Case c; c.cell = *UNI(0, (int)CELLS.size()); const KA &ka = CELLS[c.cell];
     c.sprov = *UNI(0, 2); c.vprov = *UNI(0, 2); if (gn_unsupported(ka)) c.sprov = c.vprov = 0;
-    c.mode = *UNI(0, 8); c.now = *rc::gen::element<long long>(1700000000LL, 0LL, 1LL, 4102444800LL, 1LL << 33); c.iat = *UNI(0, 2); c.nbf_off = *rc::gen::element<long>(0L, 0L, -5L, 30L, 3600L); c.exp_off = *rc::gen::element<long>(0L, 60L, 3600L, -1L, 1L << 31);
+    c.mode = *UNI(0, 16); c.now = *rc::gen::element<long long>(1700000000LL, 0LL, 1LL, 4102444800LL, 1LL << 33); c.iat = *UNI(0, 2); c.nbf_off = *rc::gen::element<long>(0L, 0L, -5L, 30L, 3600L); c.exp_off = *rc::gen::element<long>(0L, 60L, 3600L, -1L, 1L << 31);
     TreeStats ts; J h = gen_json(0, ts, true); int hd = ts.depth; J cl = gen_json(0, ts, true);
     json_object_del(h.p, "alg");   // the library forces alg; a user alg header is C10's business
     if (c.iat) json_object_del(cl.p, "iat"); if (c.nbf_off > 0) json_object_del(cl.p, "nbf"); if (c.exp_off > 0) json_object_del(cl.p, "exp");
